@@ -525,10 +525,11 @@ def parse (cfg : Cfg) (decls : List Decl) : Except PipeErr NsState :=
   | .error e => .error e
   | .ok ps => promoteTags cfg ps.ns ps.tagNs
 
-/-! ## the runtime dump (classes, interfaces, boxed types) — minimal, see C12 -/
+/-! ## the runtime dump (classes, interfaces, boxed types, enumerations / flags) — minimal, see C12 -/
 
 inductive DumpKind where
   | cls | iface | boxed
+  | enum   -- `<enum>` and `<flags>` (`_introspect_enum`: ast.Enum / ast.Bitfield, both kind `.enum` here)
   deriving Repr, DecidableEq
 
 structure DumpEntry where
@@ -569,17 +570,23 @@ def dumpName (cfg : Cfg) (e : DumpEntry) : Except PipeErr (Str × Str) :=
     | .error .crash => .error .crash
     | .error _ => .error .fatal
 
-/-- the Class / Interface node of a dump entry; `_add_record_fields`: the C type is taken
-    from the record of the same name -/
+/-- the Class / Interface node of a dump entry (`_add_record_fields`: the C type is taken
+    from the record of the same name), or the Enum / Bitfield node `_introspect_enum` builds
+    (`klass(enum_name, type_name, gtype_name=type_name, c_symbol_prefix=…)`: the C type IS the
+    GType name) -/
 def dumpNode (ns : NsState) (uid : Nat) (e : DumpEntry) (pfx name : Str) : Node :=
-  let cidOf : Str × Bool := match ns.get name with
-    | some r => if r.kind == Kind.record then (r.cid, true) else ([], false)
-    | none => ([], false)
-  { uid := uid, kind := (if e.kind == DumpKind.cls then Kind.cls else Kind.iface), name := name,
-    cid := cidOf.1, hasCid := cidOf.2, gtypeName := some e.gtypeName, getType := some e.getType,
-    cSymbolPrefix := some pfx, parentChain := (if e.kind == DumpKind.cls then e.parents else []) }
+  if e.kind == DumpKind.enum then
+    { uid := uid, kind := Kind.enum, name := name, cid := e.gtypeName, hasCid := true,
+      gtypeName := some e.gtypeName, getType := some e.getType, cSymbolPrefix := some pfx }
+  else
+    let cidOf : Str × Bool := match ns.get name with
+      | some r => if r.kind == Kind.record then (r.cid, true) else ([], false)
+      | none => ([], false)
+    { uid := uid, kind := (if e.kind == DumpKind.cls then Kind.cls else Kind.iface), name := name,
+      cid := cidOf.1, hasCid := cidOf.2, gtypeName := some e.gtypeName, getType := some e.getType,
+      cSymbolPrefix := some pfx, parentChain := (if e.kind == DumpKind.cls then e.parents else []) }
 
-/-- `_introspect_object` / `_introspect_interface` (`append(node, replace=True)`);
+/-- `_introspect_object` / `_introspect_interface` / `_introspect_enum` (`append(node, replace=True)`);
     boxed types are collected and paired afterwards -/
 def dumpOne (cfg : Cfg) (st : NsState × List DumpEntry × Nat) (e : DumpEntry) :
     Except PipeErr (NsState × List DumpEntry × Nat) :=
@@ -633,7 +640,7 @@ def removeGetType (cfg : Cfg) (st : NsState) (gt : Str) : Except PipeErr NsState
 def removeGetTypes (cfg : Cfg) (ns : NsState) : Except PipeErr NsState :=
   foldE (removeGetType cfg) ns ((ns.names.map (·.2)).filterMap (fun n => n.getType))
 
-/-- `GDumpParser.parse` restricted to class / interface / boxed entries -/
+/-- `GDumpParser.parse` restricted to class / interface / boxed / enum / flags entries -/
 def applyDump (cfg : Cfg) (ns : NsState) (dump : List DumpEntry) (next : Nat) : Except PipeErr NsState :=
   match foldE (dumpOne cfg) (ns, [], next) dump with
   | .error x => .error x
